@@ -196,3 +196,135 @@ macro_rules! c18_gcd {
         });
     };
 }
+
+// ------------------------------------------------------------------------------------------------ roots: shortcut exactness
+// The Newton iteration (`fixpoint`, private) and num-integer's u128 roots are out of the solver's reach (DESIGN 10.2 item 7), but the code
+// AROUND them is not: degree dispatch, the zero/one and `bits <= n => 1` shortcuts, the delegation to the u128 implementation below 2^128,
+// the sign handling of the signed wrappers.  Both kernels are replaced by uninterpreted stand-ins: `fixpoint` returns a MARKER value that
+// no shortcut can produce, the u128 roots return an injective-looking function of their arguments.  Decided for ALL values and ALL degrees:
+// a shortcut fires exactly when it is exact (result 1 iff 2 <= v < 2^n), everything else reaches the kernel with the right arguments.
+
+pub const ROOT_MARK64: u64 = 0x5a5a_5a5a_5a5a_5a5a;
+macro_rules! fixpoint_stub {
+    ($name:ident, $U:ident, $D:ty) => {
+        pub fn $name<const N: usize, F: Fn(bnum::$U<N>) -> bnum::$U<N>>(_s: bnum::$U<N>, _max_bits: u32, _f: F) -> bnum::$U<N> {
+            bnum::$U::<N>::from_digits([ROOT_MARK64 as $D; N])
+        }
+    };
+}
+fixpoint_stub!(fixpoint_stub_u8, BUintD8, u8);
+fixpoint_stub!(fixpoint_stub_u16, BUintD16, u16);
+fixpoint_stub!(fixpoint_stub_u32, BUintD32, u32);
+fixpoint_stub!(fixpoint_stub_u64, BUint, u64);
+pub fn u128_sqrt_stub(x: &u128) -> u128 { (*x >> 1) ^ 0x1111 }
+pub fn u128_cbrt_stub(x: &u128) -> u128 { (*x >> 1) ^ 0x2222 }
+pub fn u128_nth_root_stub(x: &u128, n: u32) -> u128 { (*x >> 1) ^ 0x4444 ^ ((n as u128) << 64) }
+
+#[macro_export]
+macro_rules! c18_roots_shortcut {
+    ($name:ident, $unw:expr, $U:ty, $I:ty, $D:ty, $N:expr, $UW:ty, [$($stub:meta),*]) => {
+        $crate::harness_stub!($name, $unw, [$($stub),*], {
+            use $crate::util::*;
+            use num_integer::Roots;
+            const DB: u32 = <$D>::BITS;
+            let (u, ud) = <$U as BN<$D, $N>>::any();
+            let n: u32 = $crate::nd::nd();
+            $crate::nd::assume(n >= 1);
+            let signed: bool = $crate::nd::nd();
+            let neg = signed && dneg(&ud);
+            $crate::nd::assume(!(neg && n % 2 == 0));
+            // magnitude whose root is taken
+            let md: [$D; $N] = if neg { XD::<$D, { $N + 1 }>::from_s(&ud).neg().low() } else { ud };
+            let mut bits = 0u32;
+            let mut k = 0;
+            while k < $N { if md[k] != 0 { bits = k as u32 * DB + (DB - md[k].leading_zeros()); } k += 1; }
+            let r: [$D; $N] = if signed { Roots::nth_root(&<$I>::from_bits(u), n).dg() } else { Roots::nth_root(&u, n).dg() };
+            #[cfg(kani)]
+            {
+                let mark: [$D; $N] = [$crate::c18::ROOT_MARK64 as $D; $N];
+                // expected result of the unsigned kernel on the magnitude
+                let e: [$D; $N] = if n == 1 || bits <= 1 {
+                    md
+                } else if bits <= 128 {
+                    let mut v: u128 = 0;
+                    let mut k = 0;
+                    while k < $N { if (k as u32) * DB < 128 { v |= (md[k] as u128) << (k as u32 * DB); } k += 1; }
+                    let s = if n == 2 { $crate::c18::u128_sqrt_stub(&v) } else if n == 3 { $crate::c18::u128_cbrt_stub(&v) } else { $crate::c18::u128_nth_root_stub(&v, n) };
+                    let mut o = [0 as $D; $N];
+                    let mut k = 0;
+                    while k < $N { if (k as u32) * DB < 128 { o[k] = (s >> (k as u32 * DB)) as $D; } k += 1; }
+                    o
+                } else if n >= 4 && bits <= n {
+                    let mut o = [0 as $D; $N];
+                    o[0] = 1;
+                    o
+                } else {
+                    mark
+                };
+                let want: [$D; $N] = if neg && n != 1 { XD::<$D, { $N + 1 }>::from_u(&e).neg().low() } else if neg { ud } else { e };
+                assert!(deq(&r, &want), "nth_root: a shortcut fires exactly when it is exact; otherwise the kernel is reached with the value and the degree");
+                $crate::reach!(bits > 128 && n >= 4 && bits <= n, "bits <= n shortcut above 2^128");
+                $crate::reach!(bits > 128 && n >= 4 && bits - 1 == n, "first degree below the shortcut");
+                $crate::reach!(bits > 128 && n == 2, "wide sqrt");
+                $crate::reach!(bits <= 128 && bits > 1 && n > 3, "delegation to u128");
+                $crate::reach!(neg && n > 1, "negative odd root");
+            }
+            #[cfg(not(kani))]
+            {
+                // replay against the real kernels: r is the integer root of the magnitude, with the sign of the argument
+                let rm: [$D; $N] = if neg { XD::<$D, { $N + 1 }>::from_s(&r).neg().low() } else { r };
+                if neg { assert!(dneg(&r) || dzero(&r), "sign preserved for odd degree"); }
+                let w = <$UW as bnum::cast::CastFrom<$U>>::cast_from(<$U as BN<$D, $N>>::mk(md));
+                let rw = <$UW as bnum::cast::CastFrom<$U>>::cast_from(<$U as BN<$D, $N>>::mk(rm));
+                let lo_ok = match rw.checked_pow(n) { Some(p) => p <= w, None => false };
+                let hi_ok = match (rw + <$UW>::ONE).checked_pow(n) { Some(p) => p > w, None => true };
+                assert!(lo_ok && hi_ok, "r^n <= |x| < (r+1)^n");
+            }
+        });
+    };
+}
+
+// First Newton step: `fixpoint` is replaced by a stand-in that evaluates the iteration function ONCE, on the initial guess, and returns the marker.
+// For a concrete degree and values of full bit length the guess 2^(BITS/n + 1) is a constant, so `guess^(n-1)` (which exceeds the width for
+// large degrees - known finding F6) is evaluated by constant propagation and the division is a division by a constant: decided for all such values.
+macro_rules! fixpoint_once_stub {
+    ($name:ident, $U:ident, $D:ty) => {
+        pub fn $name<const N: usize, F: Fn(bnum::$U<N>) -> bnum::$U<N>>(s: bnum::$U<N>, _max_bits: u32, f: F) -> bnum::$U<N> {
+            let _ = f(s);
+            bnum::$U::<N>::from_digits([ROOT_MARK64 as $D; N])
+        }
+    };
+}
+fixpoint_once_stub!(fixpoint_once_stub_u8, BUintD8, u8);
+fixpoint_once_stub!(fixpoint_once_stub_u16, BUintD16, u16);
+fixpoint_once_stub!(fixpoint_once_stub_u32, BUintD32, u32);
+fixpoint_once_stub!(fixpoint_once_stub_u64, BUint, u64);
+
+#[macro_export]
+macro_rules! c18_roots_first_step {
+    ($name:ident, $unw:expr, $U:ty, $I:ty, $D:ty, $N:expr, $UW:ty, $deg:expr, $top:expr, [$($stub:meta),*]) => {
+        $crate::harness_stub!($name, $unw, [$($stub),*], {
+            use $crate::util::*;
+            use num_integer::Roots;
+            // concrete top digit (full bit length): `bits()` and with it the initial guess are constants for the solver's constant propagation
+            let mut ud: [$D; $N] = $crate::nd::nd();
+            ud[$N - 1] = $top;
+            let u = <$U as BN<$D, $N>>::mk(ud);
+            let n: u32 = $deg;
+            let r: [$D; $N] = Roots::nth_root(&u, n).dg();
+            #[cfg(kani)]
+            {
+                let mark: [$D; $N] = [$crate::c18::ROOT_MARK64 as $D; $N];
+                assert!(deq(&r, &mark), "the Newton kernel is reached and its first step does not panic");
+            }
+            #[cfg(not(kani))]
+            {
+                let w = <$UW as bnum::cast::CastFrom<$U>>::cast_from(u);
+                let rw = <$UW as bnum::cast::CastFrom<$U>>::cast_from(<$U as BN<$D, $N>>::mk(r));
+                let lo_ok = match rw.checked_pow(n) { Some(p) => p <= w, None => false };
+                let hi_ok = match (rw + <$UW>::ONE).checked_pow(n) { Some(p) => p > w, None => true };
+                assert!(lo_ok && hi_ok, "r^n <= x < (r+1)^n");
+            }
+        });
+    };
+}
